@@ -1,3 +1,4 @@
+import Cctp.Spec.Toy
 import Cctp.Lemmas.Shapes
 import Cctp.Props.C01
 import Cctp.Model.Tx
@@ -101,5 +102,10 @@ theorem replace_respects_pause (ext : Ext) (cfg : Cfg) (st : Store) (led : Ledge
   · intro hp f og a c r o h
     obtain ⟨_, _, _, _, _, _, _, h1, _⟩ := replaceDeposit_shape h
     rw [hp] at h1; cases h1
+
+/-! non-vacuity: alice replaces her own attested message; bob cannot -/
+example : ∃ o, handle Toy.ext Toy.cfg Toy.st Toy.led Toy.replace = .ok o := (Toy.isOk_iff _).mp (by decide +kernel)
+example : Toy.isOk (handle Toy.ext Toy.cfg Toy.st Toy.led (.replaceMessage Toy.bob Toy.sentByAlice Toy.sig1 [9] (zeros 32))) = false := by
+  decide +kernel
 
 end Cctp.C09
